@@ -3,5 +3,5 @@ from harness import cls_ngram, cls_edgelist, cls_skipgram
 
 
 def cases(tier):
-    return (cls_ngram.ngram_cases(tier, ["C06", "C01", "C02"]) + cls_ngram.add_cases(tier) + cls_edgelist.cases(tier)
+    return (cls_ngram.ngram_cases(tier, ["C06", "C01", "C02"]) + cls_ngram.add_cases(tier) + cls_ngram.lemma_cases(tier) + cls_edgelist.cases(tier)
             + cls_skipgram.cases(tier))
